@@ -189,9 +189,56 @@ fn check_case(name: &str, aliases: &[String], tuple: &[&str], ctx_kind: usize, s
     Ok(hash64(&(name, ctx_kind, out.is_some(), new.len())))
 }
 
+
+/// Hundreds of calls of script-implemented commands (flat ones, nested ones, failing ones) in one run:
+/// afterwards the variables are exactly the script's own and the handle table is empty again.
+fn scale(w: &mut Worker) {
+    for n in w.tier.pick(vec![300usize], vec![300usize, 3000]) {
+        if !w.take() {
+            continue;
+        }
+        let text = format!(
+            "arr = array a b c\nm = map\nmap_put ${{m}} k v\nouts = set \"\"\ni = set 0\nwhile less_than ${{i}} {n}\ni = calc ${{i}} + 1\nj = array_join ${{arr}} ,\nc = concat x ${{i}} y\nh = map_contains_value ${{m}} v\nbad = array_join nohandle ,\ncc = array_contains ${{arr}} c\ne = array_is_empty ${{arr}}\np = join_path a ${{i}}\nend\nrelease ${{arr}}\nrelease ${{m}}\nscope::mine = set kept",
+            n = n
+        );
+        let cj = json!({"kind": "scale", "name": format!("many-calls count {}", n), "script": text});
+        w.begin(|| cj.clone());
+        w.add_transitions(1);
+        let (env, _o, _e, _h) = quiet_env();
+        match guarded(|| duckscript::runner::run_script(&text, sdk_context(), Some(env))) {
+            Err(p) => w.fail("scale:panic", &p, cj),
+            Ok(Err(e)) => w.fail("scale:run-failed", &format!("the run failed: {}", e), cj),
+            Ok(Ok(c)) => {
+                let vars = sorted_vars(&c.variables);
+                let mut expect: BTreeMap<String, String> = BTreeMap::new();
+                for (k, v) in [("outs", ""), ("j", "a,b,c"), ("h", "true"), ("bad", "false"), ("cc", "2"), ("e", "false"), ("scope::mine", "kept")] {
+                    expect.insert(k.to_string(), v.to_string());
+                }
+                expect.insert("i".into(), n.to_string());
+                expect.insert("c".into(), format!("x{}y", n));
+                expect.insert("p".into(), format!("a/{}", n));
+                let mut got = vars.clone();
+                got.remove("arr");
+                got.remove("m");
+                let handles = handle_table(&c.state);
+                if got != expect {
+                    let extra: Vec<&String> = got.keys().filter(|k| !expect.contains_key(*k)).collect();
+                    w.fail("scale:variables-differ", &format!("after {} rounds of script commands: unexpected variables {:?}; all: {:?}", n, extra, got), cj);
+                } else if !handles.is_empty() {
+                    w.fail("scale:handles-left", &format!("after {} rounds of script commands {} handles remain in the table", n, handles.len()), cj);
+                } else {
+                    w.pass(true, hash64(&"scale-many-calls"));
+                }
+            }
+        }
+    }
+}
+
 pub fn worker(w: &mut Worker) {
     let tier = w.tier;
     w.risky = true;
+    w.set_case_limit_ms(30_000);
+    scale(w);
     w.set_case_limit_ms(4_000);
     let _ = std::fs::create_dir_all(&w.scratch);
     let work = w.scratch.join("c19-cwd");
@@ -229,6 +276,13 @@ pub fn worker(w: &mut Worker) {
 }
 
 pub fn replay(case: &Value) -> Result<String, String> {
+    if case["kind"].as_str() == Some("scale") {
+        let (env, _o, _e, _h) = quiet_env();
+        return Ok(match duckscript::runner::run_script(case["script"].as_str().unwrap_or(""), sdk_context(), Some(env)) {
+            Ok(c) => mask_handles(&format!("variables {:?}; handles left: {}", sorted_vars(&c.variables), handle_table(&c.state).len())),
+            Err(e) => format!("failed: {}", e),
+        });
+    }
     let name = case["command"].as_str().ok_or("command")?;
     let cmds = script_commands();
     let (n, aliases) = cmds.iter().find(|(n, _)| n == name).ok_or("not a script-implemented command")?;
@@ -246,7 +300,7 @@ pub fn crash_sig(case: &Value, kind: &str) -> String {
     format!("{}:{}", kind, case["command"].as_str().unwrap_or("?"))
 }
 
-pub const RULE: &str = "commands: every standard-library command whose help carries the 'Show Source' block (that is how script-implemented commands render themselves; discovered at run time, std::net excluded) x every argument tuple up to the arity bound from a 15-value pool {empty, a, 'a b', multi-byte, -1, 0, 2.5, live array/map/set handle, released handle, -r, text with a line break, 'x,y', '*.txt'} x context {top level, inside a user function, inside a for body, three times in a row, as the condition of an if}; the caller's variables are pre-set, including names that resemble the internal names of the command under test (scope::<alias>x::string, scope::<alias>). Oracle: variables after the run equal the variables before it, apart from the output variable and the names given to unset; no scope:: variable is left; every pre-existing collection is unchanged; at most the returned collection is new in the handle table; the run does not fail ('Memory leak detected' is a failure)";
+pub const RULE: &str = "commands: every standard-library command whose help carries the 'Show Source' block (that is how script-implemented commands render themselves; discovered at run time, std::net excluded) x every argument tuple up to the arity bound from a 15-value pool {empty, a, 'a b', multi-byte, -1, 0, 2.5, live array/map/set handle, released handle, -r, text with a line break, 'x,y', '*.txt'} x context {top level, inside a user function, inside a for body, three times in a row, as the condition of an if}; the caller's variables are pre-set, including names that resemble the internal names of the command under test (scope::<alias>x::string, scope::<alias>). Oracle: variables after the run equal the variables before it, apart from the output variable and the names given to unset; no scope:: variable is left; every pre-existing collection is unchanged; at most the returned collection is new in the handle table; the run does not fail ('Memory leak detected' is a failure). Scale case: 300 (thorough 3000) rounds of seven script-implemented commands (flat, nested, failing) in one run: afterwards the variables are exactly the script's own and the handle table is empty";
 pub const ASSUMPTIONS: &[&str] = &["arguments are passed through caller variables p1..p3", "file-system effects of cp_glob / set_mode_glob are confined to a scratch working directory and not part of this property"];
 pub const EXHAUSTIVE: bool = true;
 pub const WALL_CAP_S: (u64, u64) = (58, 1700);
